@@ -16,6 +16,11 @@ from .code_writer import CodeWriter
 from .documentation_writer import DocumentationBlock, DocumentationWriter
 
 
+def _comment_text(text: str) -> str:
+    """Flatten spec text for a trailing `# comment`: a newline, a carriage return or a NUL would end the comment."""
+    return text.replace("\r\n", " ").replace("\n", " ").replace("\r", " ").replace("\x00", " ")
+
+
 def _py_str(value: object) -> str:
     """Render spec text as a double-quoted Python string literal (JSON escapes are valid Python escapes)."""
     return json.dumps(str(value), ensure_ascii=False)
@@ -150,7 +155,8 @@ class PythonConstructRenderer:
         if description:
             # Sanitize description for use within a triple-double-quoted string for the actual docstring
             safe_desc_content = description.replace("\\", "\\\\")  # Escape backslashes first
-            safe_desc_content = safe_desc_content.replace('"""', '\\"\\"\\"')  # Escape triple-double-quotes
+            # Escape every double quote: a description ending in a quote would otherwise merge with the delimiter
+            safe_desc_content = safe_desc_content.replace('"', '\\"').replace("\x00", "\\x00")
             writer.write_line(f'"""Alias for {safe_desc_content}"""')  # Actual generated docstring uses """
         return writer.get_code()
 
@@ -302,7 +308,7 @@ class PythonConstructRenderer:
             for name, type_hint, _, field_desc in required_fields:
                 line = f"{name}: {type_hint}"
                 if field_desc:
-                    comment_text = field_desc.replace("\n", " ")
+                    comment_text = _comment_text(field_desc)
                     line += f"  # {comment_text}"
                 writer.write_line(line)
 
@@ -312,7 +318,7 @@ class PythonConstructRenderer:
                     context.add_import("dataclasses", "field")  # Ensure field is imported
                 line = f"{name}: {type_hint} = {default_expr}"
                 if field_desc:
-                    comment_text = field_desc.replace("\n", " ")
+                    comment_text = _comment_text(field_desc)
                     line += f"  # {comment_text}"
                 writer.write_line(line)
 
